@@ -1013,7 +1013,54 @@ pub fn c11_fwdtag_dual2vec64_binb_slow() {
     cover!(true);
 }
 
+
+/// copysign takes the sign bit of the sign operand's real part (-0.0 and NaN included) on all four
+/// types and flips every part together with the real part
+#[cfg_attr(kani, kani::proof)]
+pub fn c11_copysign_all_types() {
+    use nalgebra::{SMatrix, SVector, U1};
+    let sre = any_f64();
+    let neg = sre.is_sign_negative();
+    // Dual2
+    let a = Dual2_64::new(any_f64(), any_f64(), any_f64());
+    assume(!a.re.is_nan());
+    let c = RealField::copysign(a, Dual2_64::new(sre, any_f64(), any_f64()));
+    let flip = a.re.is_sign_negative() != neg;
+    if flip {
+        assert!(eq64(c.re, -a.re) && eq64(c.v1, -a.v1) && eq64(c.v2, -a.v2));
+    } else {
+        assert!(eq64(c.re, a.re) && eq64(c.v1, a.v1) && eq64(c.v2, a.v2));
+    }
+    // DualVec
+    let v = DualVec::<f64, f64, Const<2>>::new(a.re, Derivative::some(SVector::<f64, 2>::new(a.v1, a.v2)));
+    let cv = RealField::copysign(v, DualVec::<f64, f64, Const<2>>::new(sre, Derivative::none()));
+    let e = cv.eps.unwrap_generic(Const::<2>, U1);
+    assert!(cv.re.is_sign_negative() == neg);
+    if flip {
+        assert!(eq64(e[0], -a.v1) && eq64(e[1], -a.v2));
+    } else {
+        assert!(eq64(e[0], a.v1) && eq64(e[1], a.v2));
+    }
+    // Dual2Vec
+    let w = Dual2Vec::<f64, f64, Const<1>>::new(
+        a.re,
+        Derivative::some(SMatrix::<f64, 1, 1>::new(a.v1)),
+        Derivative::some(SMatrix::<f64, 1, 1>::new(a.v2)),
+    );
+    let cw = RealField::copysign(w, Dual2Vec::<f64, f64, Const<1>>::new(sre, Derivative::none(), Derivative::none()));
+    assert!(cw.re.is_sign_negative() == neg);
+    let (w1, w2) = (cw.v1.unwrap_generic(U1, Const::<1>), cw.v2.unwrap_generic(Const::<1>, Const::<1>));
+    if flip {
+        assert!(eq64(w1[0], -a.v1) && eq64(w2[0], -a.v2));
+    } else {
+        assert!(eq64(w1[0], a.v1) && eq64(w2[0], a.v2));
+    }
+    cover!(sre == 0.0 && neg);
+    cover!(sre.is_nan());
+}
+
 pub const LIST: &[(&str, fn())] = &[
+    ("c11_copysign_all_types", c11_copysign_all_types),
     ("c11_fwdtag_dual64_u0", c11_fwdtag_dual64_u0),
     ("c11_fwdtag_dual64_u1", c11_fwdtag_dual64_u1),
     ("c11_fwdtag_dual64_u2", c11_fwdtag_dual64_u2),
